@@ -22,6 +22,7 @@ import json
 import logging
 import os
 import random
+import re
 import shutil
 import struct
 import sys
@@ -478,6 +479,17 @@ def run_demo_case(rng, tmp, idx):
         for _ in range(rng.choice([8, 16, 30])):
             top = stack[-1]
             r = rng.random()
+            if getattr(top, '_temporary_changes', False) and rng.random() < 0.25:
+                # the first blob operation makes implicit changes blob-capable (_blobify): the ids handed
+                # out so far must stay issued
+                try:
+                    if rng.random() < 0.5:
+                        top.temporaryDirectory()
+                    else:
+                        top.loadBlob(p64(rng.choice(base_oids)), tid_of(1))
+                except POSException.POSKeyError:
+                    pass
+                log.append('blob-op')
             if r < 0.5:
                 # propose collisions: ids in either layer, ids already issued, then whatever the seeded generator says
                 pres = sorted(present_oids(top))
@@ -866,6 +878,66 @@ class HookedChanges(MappingStorage):
         return MappingStorage.tpc_finish(self, transaction, func)
 
 
+def probe_blobify_keeps_issued(tmp):
+    """directed: an id is issued (Connection.add), then the storage's first blob operation happens, then the
+    running candidate collides and the scripted re-draw proposes the issued id again"""
+    draws = SeededDraws(4)
+    DEMO_MODULE.random = draws
+    base = MappingStorage()
+    commit(base, tid_of(1), [(1, z64, 1), (201, z64, 1)])
+    bad = None
+    for how in ('temporaryDirectory', 'loadBlob', 'storeBlob'):
+        draws.queue = [200]
+        demo = DemoStorage(base=base, close_base_on_close=False)      # implicit (temporary) changes
+        x = u64(demo.new_oid())                                       # 200; the next candidate 201 is in the base
+        if how == 'temporaryDirectory':
+            demo.temporaryDirectory()
+        elif how == 'loadBlob':
+            try:
+                demo.loadBlob(p64(1), tid_of(1))
+            except POSException.POSKeyError:
+                pass
+        else:
+            import ZODB.blob
+            t = TransactionMetaData()
+            demo.tpc_begin(t, tid_of(5))
+            fn = os.path.join(tmp, 'blobify-up')
+            with open(fn, 'wb') as f:
+                f.write(b'x')
+            try:
+                demo.storeBlob(p64(300), z64, zodb_pickle(ZODB.blob.Blob()), fn, '', t)
+                demo.tpc_vote(t)
+                demo.tpc_finish(t)
+            except Exception:
+                demo.tpc_abort(t)
+        draws.queue = [x, 7000]
+        again = u64(demo.new_oid())
+        demo.close()
+        if again == x:
+            bad = ('DemoStorage (implicit changes): id %d was issued, then the first blob operation (%s) made the '
+                   'changes blob-capable, and new_oid() handed the same id out again' % (x, how))
+            break
+    return bad
+
+
+def probe_mvccmapping_instance_store():
+    """MVCCMappingStorage (bundled in ZODB.tests, used by DB as an IMVCCStorage): new_instance() shares
+    new_oid with the main storage but store() through an instance raises the INSTANCE's counter"""
+    from ZODB.tests.MVCCMappingStorage import MVCCMappingStorage
+    main = MVCCMappingStorage()
+    inst = main.new_instance()
+    t = TransactionMetaData()
+    inst.tpc_begin(t)
+    inst.store(p64(3), z64, pickle_refs(1, []), '', t)
+    inst.tpc_vote(t)
+    inst.tpc_finish(t)
+    got = [u64(inst.new_oid()) for _ in range(4)]
+    if 3 in got:
+        return ('MVCCMappingStorage: a record with oid 3 stored through an instance (new_instance()), then new_oid() '
+                'returned %s: the instance raised its own counter, new_oid uses the main storage\'s' % got)
+    return None
+
+
 def probe_finish_window(tmp):
     """directed: while client A's tpc_finish is on its way into the changes storage, client B calls new_oid()
     and its re-draw proposes the id A is just committing.  It must be either still issued or already stored."""
@@ -1078,6 +1150,20 @@ def main(argv=None):
             if bad:
                 ck.violation('C20:%s-concurrent-new-oid' % kind, 'store vs allocator: ' + bad,
                              dict(section='D-probes', probe='store-race', kind=kind))
+        bad = probe_blobify_keeps_issued(ck.tmp)
+        ck.count('probe:blobify-keeps-issued')
+        ck.case(['probe-blobify'], True, None)
+        if bad:
+            ck.violation('C20:demo-new-oid-collision', bad, dict(section='D-probes', probe='blobify'))
+        bad = probe_mvccmapping_instance_store()
+        ck.count('probe:mvccmapping-instance-store:' + ('reissued' if bad else 'ok'))
+        ck.extra.setdefault('coverage', {}).setdefault('excluded_points', {})[
+            'MVCCMappingStorage instance store then new_oid'] = bad or 'no id re-issued'
+        sig = 'C20:mvccmapping-instance-store-oid-reissued'
+        if bad and any(re.fullmatch(k['signature'], sig) for k in ck.known):
+            # reported to the coordinator; counted as a violation once it is recorded (open: KNOWN-FINDING,
+            # fixed: regression) -- until then an evidence note only
+            ck.violation(sig, bad, dict(section='D-probes', probe='mvccmapping'))
         bad = probe_finish_window(ck.tmp)
         ck.count('D:finish-window-probe')
         ck.case(['D-finish-window'], True, None)
